@@ -158,3 +158,132 @@ def holds_gt(rels, a_pred, b_lin):
         if rel == 'ge' and d == {'': 1}:
             return r
     return None
+
+
+def _edge_relation(fn, rec, a, b):
+    """Relation implied by taking the CFG edge a -> b (None when a does not branch or the edge carries no usable constraint)."""
+    t = fn.term(a)
+    if t['k'] != 'switch':
+        return None
+    targets = [(int(v), tg) for v, tg in t['arms']]
+    vals = [v for v, tg in targets if tg == b]
+    is_other = t['otherwise'] == b
+    if is_other and vals:
+        return None
+    de = (rec.at(a) if hasattr(rec, 'at') else rec).operand(t['discr'])
+    if is_other:
+        c = ('notin', [v for v, _ in targets])
+    elif len(vals) == 1:
+        c = ('eq', vals[0])
+    else:
+        c = ('in', vals)
+    if t.get('discr_ty') == 'bool':
+        if c[0] in ('eq', 'notin'):
+            truth = (c == ('notin', [0])) or (c[0] == 'eq' and c[1] != 0)
+            return as_relation(de, truth) + (a,)
+        return None
+    return ('switch', de, c, a)
+
+
+def alternatives(fn, rec, block, limit=12, depth=3):
+    """Path condition of `block` in disjunctive form: a list of alternatives, each a list of relations (same tuples as `relations`).
+    Every alternative contains the dominating relations; where `block` or one of its dominators is a join (short-circuit `a || b`,
+    a `match` with several arms leading to the same code), the alternatives enumerate the acyclic forward paths from the join's
+    immediate dominator, with the constraints of the edges taken (at most `depth` joins up the dominator chain, at most `limit`
+    alternatives; beyond that the single alternative `relations(block)` is returned, which is always sound)."""
+    base = relations(fn, rec, block)
+    dom = fn.dominators()
+    if block not in dom:
+        return [base]
+
+    def idom_of(b):
+        strict = dom[b] - {b}
+        for d in strict:
+            if all(x in dom[d] for x in strict):
+                return d
+        return None
+
+    def local_paths(d, b):
+        paths = []
+
+        def walk(x, acc, seen):
+            if len(paths) > limit:
+                return
+            if x == b:
+                paths.append(list(acc))
+                return
+            for s_ in fn.succs(x):
+                if s_ in seen or s_ not in dom or d not in dom[s_] or (s_ in dom[x] and s_ != b):
+                    continue
+                r = _edge_relation(fn, rec, x, s_)
+                walk(s_, acc + ([r] if r is not None else []), seen | {s_})
+        walk(d, [], {d})
+        return paths
+
+    extra = [[]]
+    b, joins = block, 0
+    while True:
+        d = idom_of(b)
+        if d is None:
+            break
+        paths = local_paths(d, b)
+        if not paths or len(paths) > limit:
+            return [base]
+        if len(paths) > 1:
+            joins += 1
+            if joins > depth:
+                break
+            extra = [p + e for p in paths for e in extra]
+            if len(extra) > limit:
+                return [base]
+        b = d
+    key = lambda r: (r[0], repr(r[1:-1]))
+    out = []
+    for p in extra:
+        have = {key(r) for r in base}
+        out.append(base + [r for r in p if key(r) not in have])
+    return out
+
+
+def expr_alternatives(e, truth=True, limit=16):
+    """DNF of a boolean expression: list of conjunctions of relations.  `a | b`, `a || b` (BitOr on bools) split into alternatives,
+    `a & b` joins; negation is pushed inwards (De Morgan)."""
+    while e[0] == 'un' and e[1] == 'Not':
+        e, truth = e[2], not truth
+    if e[0] == 'bin' and e[1] in ('BitOr', 'BitAnd'):
+        is_or = (e[1] == 'BitOr') == truth
+        A, B = expr_alternatives(e[2], truth, limit), expr_alternatives(e[3], truth, limit)
+        if is_or:
+            out = A + B
+        else:
+            out = [x + y for x in A for y in B]
+        return out if len(out) <= limit else [[as_relation(e, truth)]]
+    if e[0] == 'ite' and len(e) == 4:
+        # (c & a) | (!c & b), with constant arms simplified
+        c, a, b = e[1], e[2], e[3]
+        out = []
+        for cv, arm in ((True, a), (False, b)):
+            if arm[0] == 'k' and isinstance(arm[1], bool):
+                if arm[1] == truth:
+                    out.extend(expr_alternatives(c, cv, limit))
+                continue
+            out.extend([x + y for x in expr_alternatives(c, cv, limit) for y in expr_alternatives(arm, truth, limit)])
+        return out if 0 < len(out) <= limit else [[as_relation(e, truth)]]
+    return [[as_relation(e, truth)]]
+
+
+def expand_alternatives(alts, limit=24):
+    """Split the boolean-expression relations ('true' / 'false', e) inside each alternative into their own alternatives."""
+    out = []
+    for a in alts:
+        acc = [[]]
+        for r in a:
+            if r[0] in ('true', 'false') and isinstance(r[1], tuple) and ((r[1][0] == 'bin' and r[1][1] in ('BitOr', 'BitAnd')) or r[1][0] == 'ite'):
+                parts = expr_alternatives(r[1], r[0] == 'true')
+                acc = [x + [q + (r[-1],) for q in p] for x in acc for p in parts]
+            else:
+                acc = [x + [r] for x in acc]
+            if len(acc) > limit:
+                return alts
+        out.extend(acc)
+    return out if len(out) <= limit else alts
